@@ -186,6 +186,16 @@ def cycles():
         "function take(A a, Box<A> b, Bag<Bag<A>> c) -> A { return a; }\n",
     ]
     mains = ["function main() -> void { }\n", "function main() -> void { A a = new A(); Zed z = a; echo(1); }\n", "function main() -> void { Box<A> b = new Box<A>(); Pen<A> p = new Pen<A>(); }\n"]
+    # hierarchies that are acyclic by name but not once instantiated (a generic class whose base is its own type parameter, extended
+    # with itself as the argument), next to assignability questions that walk the instantiated chain
+    selfp = ("class T { public constructor() -> T = default; }\nclass Other { public constructor() -> Other = default; }\n"
+             "class A<T> extends T { public constructor() -> A<T> = default; }\nclass B<X> extends A<B<X>> { public constructor() -> B<X> = default; }\n")
+    for use in ("function main() -> void { B<Other> b = null; Other o = b; }\n", "function main() -> void { B<Other> b = new B<Other>(); T t = b; echo(1); }\n",
+                "function f(B<Other> b) -> Other { return b; }\nfunction main() -> void { }\n", "function g(Other o) -> void { }\nfunction main() -> void { B<int> b = null; g(b); }\n",
+                "class H { public Other o; public constructor(B<Other> b) -> H { this.o = b; } }\nfunction main() -> void { }\n",
+                "function main() -> void { A<Other> a = null; B<Other> b = null; a = b; Other o = a; }\n"):
+        out.append(selfp + use)
+        out.append(use.replace("function main", "function main0") + selfp + "function main() -> void { }\n")
     for r in rings:
         for u in uses:
             for m in mains:
@@ -243,6 +253,10 @@ def run(tier, seed):
             inputs.append(("nested", s))
     for s in cycles():
         inputs.append(("cyclic hierarchy", s))
+    # imports that cannot resolve, with names no file system accepts (one component of 300 / 5000 characters, 1200 components)
+    for name in ("a" * 300, "a" * 5000, ".".join(["abc"] * 1200) + ".X", "p." + "b" * 300, ".".join(["d" * 200] * 30), "a" * 300 + ".*", ".".join(["abc"] * 1200) + ".*"):
+        inputs.append(("unresolvable import", "import %s;\nfunction main() -> void { echo(1); }\n" % name))
+        inputs.append(("unresolvable import", "package q;\nimport %s;\nimport %s;\nfunction main() -> void { }\n" % (name, name)))
     for wd in (2, 9, 40, 96):
         for s in flat(wd):
             inputs.append(("flat", s))
